@@ -83,6 +83,7 @@ def random_shape(rng, version):
             sh["pad13"] = lambda r, mx=mx: r.randrange(0, mx + 1)
         sh["tickets"] = rng.randrange(0, 3)
         sh["ccs13"] = rng.random() < 0.7
+        sh["frag13"] = rng.random() < 0.3      # handshake flights cut into records at arbitrary byte positions (RFC 8446 5.1)
     else:
         sh["abbreviated"] = rng.random() < 0.3
         sh["sid_len"] = rng.choice([0, 1, 7, 16, 32]) if not sh["abbreviated"] else rng.choice([1, 16, 32])
